@@ -146,8 +146,9 @@ class HGen:
         return m, ne
 
 
-def gen_case(rng, hist_len=None, may=False, p_enum=0.0, p_sep=0.0, p_queued=0.0, **kw):
+def gen_case(rng, hist_len=None, may=False, p_enum=0.0, p_sep=0.0, p_queued=0.0, p_reuse=0.0, **kw):
     use_enum = rng.random() < p_enum if p_enum else False
+    use_reuse = (not use_enum) and p_reuse and rng.random() < p_reuse
     use_sep = rng.choice(['.', '/', '->', '\u21a6']) if (p_sep and rng.random() < p_sep) else None
     use_queued = bool(p_queued and rng.random() < p_queued)
     g = HGen(rng, **kw)
@@ -186,6 +187,8 @@ def gen_case(rng, hist_len=None, may=False, p_enum=0.0, p_sep=0.0, p_queued=0.0,
     out = dict(machine=m, env=env, model=0, init=init, history=hist, cls='HierarchicalMachine')
     if use_enum:
         out['enum'] = 1     # states named by Enum members (member names reused on every level)
+    if use_reuse:
+        out['enum'] = 2     # plain string names reused on every level and in every branch ('n0', 'n1', ...)
     if use_sep:
         out['sep'] = use_sep    # NestedState.separator of a subclass of the machine's state class
     if use_queued:
@@ -318,6 +321,11 @@ class EnumNames(object):
                     group(d['children'], p)
         group(machine['states'], ())
 
+    def by_label(self, label):
+        if not hasattr(self, '_by_label'):
+            self._by_label = {self.label_path(list(p)): list(p) for p in self.member}
+        return self._by_label.get(label, [999])
+
     def label_path(self, path):
         return CUR['sep'].join(self.member[tuple(path[:i + 1])].name for i in range(len(path)))
 
@@ -328,6 +336,8 @@ class EnumNames(object):
             if isinstance(x, (list, tuple)):
                 for y in x:
                     fl(y)
+            elif isinstance(x, str):
+                paths.append(self.by_label(x))       # case['enum'] == 2: the member NAMES as plain strings
             else:
                 paths.append(self.path_of.get(x, [999]))
         fl(v)
@@ -374,7 +384,7 @@ def build_hsm(case, world, cls, extra_kwargs=None, model=None):
         if d['events']:
             out['transitions'] = [tdict(e, t) for e, ts in d['events'] for t in ts]
         return out
-    model = model if model is not None else Model()
+    model = model if model is not None else (flat.FalsyModel() if case.get('falsy') else Model())
     kw = dict(model=model, states=[sdict(d) for d in m['states']], initial=sname(case['init']), auto_transitions=False,
               send_event=m['send'], ignore_invalid_triggers=m['ignore'],
               prepare_event=[R('prepare_event', c) for c in m['prepare_event']],
@@ -401,12 +411,19 @@ def build_hsm_enum(case, world, cls, extra_kwargs=None, model=None):
     world.state_of = lambda mod: names.forest(mod.state)
     world.enum_names = names
     cnt = [0]
+    plain = case.get('enum') == 2      # the same names ('n0', 'n1', ... reused on every level) as plain strings
+
+    class _Names(dict):
+        def __getitem__(self, k):
+            mem = dict.__getitem__(self, k)
+            return mem.name if plain else mem
+    member = _Names(names.member)
 
     def ref(scope, rel):
         """a state reference inside `scope` (id path): Enum member or string path, alternating"""
         cnt[0] += 1
         full = tuple(scope) + tuple(rel)
-        if cnt[0] % 2:
+        if cnt[0] % 2 and not plain:
             return names.member[full]
         return CUR['sep'].join(names.member[full[:i + 1]].name for i in range(len(scope), len(full)))
 
@@ -419,19 +436,19 @@ def build_hsm_enum(case, world, cls, extra_kwargs=None, model=None):
 
     def sdict(d, prefix):
         p = prefix + (d['name'],)
-        out = dict(name=names.member[p], on_enter=[R('enter', c) for c in d['enter']],
+        out = dict(name=member[p], on_enter=[R('enter', c) for c in d['enter']],
                    on_exit=[R('exit', c) for c in d['exit']], on_final=[R('on_final', c) for c in d['onfinal']],
                    final=d['final'], ignore_invalid_triggers=d['ignore'])
         if d['children']:
             out['children'] = [sdict(c, p) for c in d['children']]
         if d['initial']:
-            ini = [names.member[p + (i,)] for i in d['initial']]
+            ini = [member[p + (i,)] for i in d['initial']]
             out['initial'] = ini[0] if len(ini) == 1 else ini
         if d['events']:
             out['transitions'] = [tdict(e, t, p) for e, ts in d['events'] for t in ts]
         return out
-    model = model if model is not None else Model()
-    kw = dict(model=model, states=[sdict(d, ()) for d in m['states']], initial=names.member[tuple(case['init'])],
+    model = model if model is not None else (flat.FalsyModel() if case.get('falsy') else Model())
+    kw = dict(model=model, states=[sdict(d, ()) for d in m['states']], initial=(names.label_path(case['init']) if plain else names.member[tuple(case['init'])]),
               auto_transitions=False, send_event=m['send'], ignore_invalid_triggers=m['ignore'],
               prepare_event=[R('prepare_event', c) for c in m['prepare_event']],
               before_state_change=[R('before_sc', c) for c in m['before_sc']],
@@ -617,7 +634,10 @@ def async_stream(tag, seed, n, **genkw):
     cases = []
     for i in range(n):
         rng = random.Random('%s-%d-%d' % (tag, seed, i))
-        c = trim_lists(gen_case(rng, p_enum=0.15, **genkw))
+        c = gen_case(rng, p_enum=0.15, p_sep=0.15, **dict(genkw, p_parallel=(0.8 if i % 3 == 1 else genkw.get('p_parallel', 0.3))))
+        if i % 3 == 1:
+            add_cross_region(c, rng)       # the asyncio copy of the 'still active?' re-check
+        c = trim_lists(c)
         c['history'] = [(0, e, a) for (k, e, a) in c['history']]
         c['env'] = dict(default=c['env']['default'], bypos={p: r for p, r in c['env']['bypos'].items() if r[1] is None},
                         bycb={k: r for k, r in c['env']['bycb'].items() if r[1] is None})
